@@ -385,8 +385,9 @@ impl Expression for ExpressionAssign {
                 Ok(v) => match right_result {
                     Err(err) => Err(err),
                     Ok(right_arc) => {
-                        let right_guard = right_arc.lock().unwrap();
-                        match right_guard.deref() {
+                        // Work on a copy: left and right may be the same Arc (a = a).
+                        let right_data = right_arc.lock().unwrap().clone();
+                        match &right_data {
                             Data::Integer(_)
                             | Data::Double(_)
                             | Data::String(_)
@@ -398,13 +399,11 @@ impl Expression for ExpressionAssign {
                                 if v.is_readonly() {
                                     Err(format!("Can't set read-only {v}"))
                                 } else {
-                                    right_guard
-                                        .deref()
-                                        .clone_into(v.lock().unwrap().deref_mut());
+                                    right_data.clone_into(v.lock().unwrap().deref_mut());
                                     Ok(v.clone())
                                 }
                             }
-                            Data::Error(_) | Data::None() => Err(format!("Can't assign from '{}'", right_guard)),
+                            Data::Error(_) | Data::None() => Err(format!("Can't assign from '{}'", right_data)),
                         }
                     }
                 },
